@@ -21,6 +21,9 @@ import (
 //     the cache's size check and its insert.
 type vclock struct {
 	nowNs atomic.Int64
+	// wallNs: what Now() reports beyond nowNs. Timers (After/Sleep) live on the nowNs axis alone, like the
+	// runtime's monotonic timers; an operator or NTP setting the wall clock back moves only Now().
+	wallNs atomic.Int64
 
 	mu      sync.Mutex
 	timers  []*vtimer
@@ -54,8 +57,11 @@ func (c *vclock) Now() time.Time {
 	if c.gateArmed.Load() {
 		c.maybePark()
 	}
-	return time.Unix(0, c.nowNs.Load())
+	return time.Unix(0, c.nowNs.Load()+c.wallNs.Load())
 }
+
+// StepWall moves the wall clock (Now) by d without touching the timers.
+func (c *vclock) StepWall(d time.Duration) { c.wallNs.Add(int64(d)) }
 
 func (c *vclock) maybePark() {
 	var pcs [24]uintptr
